@@ -195,3 +195,30 @@ Section GetFieldValue.
     do v <- get_field_value path n;
     match v with GSlice => Ok tt | _ => Err end.
 End GetFieldValue.
+
+(* ---------- fieldspec.Filter on any object, including a sequence at the top ----------
+   isMatchGVK reads kind and apiVersion through getMapFieldValue, which does not look at the node kind:
+   a sequence is read pairwise, and panics when the reader runs off an odd Content.
+   (Yaml/FieldSpec.v models the readers on mappings; [fs_apply_raw] agrees with [fs_apply] there.) *)
+From KV Require Export Yaml.FieldSpec.
+
+Definition is_match_gvk_raw (fs : fieldspec) (obj : node) : res bool :=
+  do k <- get_kind obj;
+  if negb (String.eqb (fs_kind fs) "") && negb (String.eqb (fs_kind fs) k) then Ok false
+  else
+    do av <- get_api_version obj;
+    let (g, v) := parse_group_version av in
+    Ok ((String.eqb (fs_group fs) "" || String.eqb (fs_group fs) g) &&
+        (String.eqb (fs_version fs) "" || String.eqb (fs_version fs) v)).
+
+Definition fs_apply_raw (ck : option kind) (ct : tag) (set_value : node -> res node)
+           (fs : fieldspec) (obj : node) : res node :=
+  do m <- is_match_gvk_raw fs obj;
+  if m then fs_filter ck ct set_value (fs_create fs) (path_splitter (fs_path fs)) obj else Ok obj.
+
+Fixpoint fsslice_apply_raw (ck : option kind) (ct : tag) (set_value : node -> res node)
+         (l : list fieldspec) (obj : node) : res node :=
+  match l with
+  | [] => Ok obj
+  | fs :: t => do obj' <- fs_apply_raw ck ct set_value fs obj; fsslice_apply_raw ck ct set_value t obj'
+  end.
